@@ -224,7 +224,8 @@ def wrap(inner_list):
         out.append(Tup(d, L("int")))
         out.append(Tup(L("int"), d, style="b"))
         out.append(U(d, L("bytes")))
-        out.append(("Ann", d, "m"))
+        if d[0] != "Ann":     # typing flattens Annotated[Annotated[T, x], y]; the property says nothing about that equivalence
+            out.append(("Ann", d, "m"))
         out.append(G("G", d))
         out.append(G("type", d, style="t"))
     return out
@@ -241,21 +242,33 @@ def depth1_tiny():
     ]
 
 
-def depth2():
-    out = wrap(depth1_core())
+def depth1_small():
+    """the part of the depth-1 hints that the quick tier lifts to depth 2"""
+    return depth1_tiny() + [
+        ("Opt", G("list", style="t")), U(L("int"), G("GC")), U(L("int"), L("str"), L("None")), U(Lit("0"), L("None")),
+        U(G("list"), G("list", style="t")), Lit("0", "False"), G("GC"), G("list", style="t"), Lit("F1.A", "F2.A"),
+    ]
+
+
+def depth2(tier):
     tiny = depth1_tiny()
-    for i, a in enumerate(tiny):
-        for b in tiny[i + 1:]:
+    if tier == "quick":
+        out = wrap(depth1_small())
+        pair_pool, dict_pool = tiny[:12], tiny[:5]
+    else:
+        out = wrap(depth1_core() + depth1_small())
+        pair_pool, dict_pool = tiny, tiny[:10]
+    for i, a in enumerate(pair_pool):
+        for b in pair_pool[i + 1:]:
             out.append(U(a, b))
-    for a in tiny[:10]:
-        for b in tiny[:10]:
+    for a in dict_pool:
+        for b in dict_pool:
             out.append(G("dict", a, b, style="t"))
     return out
 
 
 def depth3():
-    d2 = depth2()
-    out = wrap(d2[: len(wrap(depth1_core()))][::3])     # every third wrapped core hint, lifted once more
+    out = wrap(wrap(depth1_small()))
     tiny = depth1_tiny()
     for a in tiny[:8]:
         for b in tiny[:8]:
@@ -264,7 +277,7 @@ def depth3():
 
 
 def base_hints(tier):
-    hints = depth0() + depth1() + depth2()
+    hints = depth0() + depth1() + depth2(tier)
     if CFG[tier]["grammar"] >= 3:
         hints += depth3()
     seen = set()
@@ -417,11 +430,14 @@ def behaviour(h):
 _GENERIC_OBJECTS = R.generic_origin_objects()
 
 
-def is_bare_generic_hint(h):
+def bare_generic_flag(h):
+    """predicates treat a bare generic class specially (matches by class, documented), also under Annotated (not accepted)"""
+    if typing.get_origin(h) is typing.Annotated:
+        return "annotated:" + bare_generic_flag(h.__origin__)
     try:
-        return h in _GENERIC_OBJECTS
+        return "bare generic" if h in _GENERIC_OBJECTS else "other"
     except TypeError:
-        return False
+        return "other"
 
 
 def predicate_vector(h, probes):
@@ -465,16 +481,19 @@ def eval_pair(spec_a, spec_b, cold, order="ab"):
     return na, nb
 
 
-def check_idempotent(h, cold, inner=True):
+def check_idempotent(h, cold, inner=True, n=None):
     """-> list of (where, node kind, text) for normal-form nodes whose source does not normalise back to them"""
     bad = []
-    reset()
-    n = norm(h)
+    if n is None:
+        reset()
+        n = norm(h)
     if n[0] != "ok":
         return bad
     for where, node in norm_nodes(n[1]):
         if where == "inner" and not inner:
             continue
+        if node.source is h and where == "top":
+            continue    # normalising the same object again is the computation that produced n (cold) - nothing to compare
         if cold:
             reset()
         try:
@@ -703,7 +722,7 @@ class ClassExplorer:
     def idempotence(self, s, h, inner):
         # cold only: warm, normalize_type(n.source) of the top node is a cache hit by construction
         self.report.evaluations += 1
-        for where, kind, text in check_idempotent(h, True, inner=inner):
+        for where, kind, text in check_idempotent(h, True, inner=inner, n=self.cold[s]):
             self.report.violation(
                 {"check": "C15.idempotent", "node": kind, "where": where, "cold": True},
                 f"{R.render(s)}: {text}",
@@ -824,7 +843,7 @@ class ClassExplorer:
         probes = [build_cold(p) for p in probes_specs]
         groups = {}
         for s in sel:
-            flag = is_bare_generic_hint(self.hints[s])
+            flag = bare_generic_flag(self.hints[s])
             vec = predicate_vector(self.hints[s], probes)
             if vec[0] == "no-predicate":
                 report.outcome("predicate cannot be built (ValueError)")
